@@ -10,7 +10,7 @@ ID = "C10"
 LEVEL = "proof"
 PROPERTIES_MODULE = "Properties.C10"
 COQ_TARGETS = ["Properties/C10.vo", "Model/Dispatch.vo"]
-THEOREMS = ["C10_source_flag", "C10_slot_update", "C10_increments_are_spacings"]
+THEOREMS = ["C10_source_flag", "C10_slot_update", "C10_slot_is_l_lowest", "C10_increments_are_spacings"]
 AXIOMS_ALLOWED = setflib.REAL_AXIOMS
 
 
@@ -33,9 +33,10 @@ TRUSTED_BASE = [
     "translate/tr_flags.py, translate/tr_pmhformulas.py (increments g); extraction (ExtrOcamlBasic) + ocaml/driver.ml",
     "real-number axioms of the Coq standard library for the spacing identity only",
 ]
-ASSUMPTIONS = ["PARTIAL: the expectation is not a theorem, and the slot characterisation (the l smallest values over all pairs) is not yet "
-               "proved either: the deterministic core is decided by model = code on every slot plus the store-level lemmas; the "
-               "uniform-ranking argument and the Renyi representation are assumed",
+ASSUMPTIONS = ["PARTIAL: the expectation is not a theorem. Proved: every slot holds the l lowest-valued pairs among all pairs "
+               "(C10_slot_is_l_lowest), i.e. the collision event is the one the property names, for the ranking of the pairs by their "
+               "value in that slot; assumed: that this ranking is uniform (exchangeability of the pairs' races) and the Renyi "
+               "representation of exponential order statistics",
                "Monte-Carlo runs are a search aid after a broken obligation (|z| > 6), never a pass criterion"]
 
 
@@ -56,16 +57,36 @@ def correspond(run):
                   [c["meta"] for c in cases[:3]],
                   rule="as C11: sequences with and without repeats, m 1..32, l 1..6; selected indices and values of every slot compared")
     run.oblige("correspondence:ordminhash", "correspondence", not bad, "%d differ; first %s" % (len(bad), bad[:2]))
+    # hypotheses of the probabilistic reading, monitored on every case: scripts well formed, and no two pairs share a value
+    shared = [c["meta"] for c, r in zip(cases, res) if len(r) > 3 and r[3] != 1]
+    run.coverage["hypothesis_monitors"] = {
+        "pairs_ok": round(sum(1 for r in res if len(r) > 1 and r[1] == 1) / max(1, len(res)), 4),
+        "pair_races_share_no_value": round(1 - len(shared) / max(1, len(res)), 4)}
+    run.oblige("hypotheses:pair-races-share-no-value", "correspondence", not shared,
+               "%d of %d sequences have two (element, occurrence) pairs whose races share a value; first m=%s l=%s data=%s" % (
+                   len(shared), len(res), shared[0]["m"] if shared else "", shared[0]["l"] if shared else "",
+                   shared[0]["data"] if shared else ""))
+    if shared:
+        c = min(shared, key=lambda x: x["len"])
+        run.notes.append({"shared_value_case": c})
 
 
 def search(run):
     rc, js, out, err = vlib.harness(["ord-mc", "--seed", run.seed, "--trials", 3000], timeout=3000)
-    if rc != 0 or js is None:
-        return
-    for f in js["found"][:1]:
-        run.violation("ord-bias", "ProbOrdMinHash2 l=1, m=%d, %s: mean match fraction %.5f vs %.5f (z = %.1f over %d trials)" % (
-            f["m"], f["family"], f["mean"], f["j"], f["z"], f["trials"]),
-            {"kind": "impl-input", "input": f, "observed": f["mean"], "expected": f["j"]})
+    if rc == 0 and js is not None:
+        for f in js["found"][:1]:
+            run.violation("ord-bias", "ProbOrdMinHash2 l=1, m=%d, %s: mean match fraction %.5f vs %.5f (z = %.1f over %d trials)" % (
+                f["m"], f["family"], f["mean"], f["j"], f["z"], f["trials"]),
+                {"kind": "impl-input", "input": f, "observed": f["mean"], "expected": f["j"]})
+    # sequences with repeated elements against the exact probability (all rankings of the pairs enumerated)
+    rc, js, out, err = vlib.harness(["ord-mc-rep", "--seed", run.seed, "--trials", 3000], timeout=3000)
+    if rc == 0 and js is not None:
+        worst = sorted([r for r in js["rows"] if abs(r["z"]) > 6], key=lambda r: -abs(r["z"]))
+        for f in worst[:1]:
+            run.violation("ord-bias-repeats", "ProbOrdMinHash2 %s (sequences with repeated elements), l=%d, m=%d: mean match fraction %.5f, "
+                          "exact order-min-hash probability %.5f (z = %.1f over %d trials)" % (
+                              f["family"], f["l"], f["m"], f["mean"], f["p"], f["z"], f["trials"]),
+                          {"kind": "impl-input", "input": f, "observed": f["mean"], "expected": f["p"]})
 
 
 def replay(path):
